@@ -63,10 +63,13 @@ func exemptErr(fn *ssa.Function, callee string) (string, bool) {
 func errorDiscipline(c *Ctx, rule, label string, fn *ssa.Function, po PO) {
 	o := c.Ob(rule, label+": no fallible call's error is dropped on a success path")
 	exNotes := map[string]bool{}
+	// functions without an error result (genesis export/import panic instead): success = returns
+	res := fn.Signature.Results()
+	noErrResult := res.Len() == 0 || types.TypeString(res.At(res.Len()-1).Type(), nil) != "error"
 	for _, p := range c.Paths(fn, po) {
 		o.Paths++
 		o.Facts += p.NFacts()
-		if p.Panic || !p.MayOK() {
+		if p.Panic || (!noErrResult && !p.MayOK()) {
 			continue
 		}
 		end := len(p.Events)
@@ -112,6 +115,14 @@ func errorDiscipline(c *Ctx, rule, label string, fn *ssa.Function, po PO) {
 					continue
 				}
 				// returned as the path's own error (tail call)
+				if len(p.Ret) == 0 {
+					if why, ok := exemptErr(ev.Fn, ev.Call.Name); ok {
+						exNotes[fnShort(ev.Fn)+" -> "+ev.Call.Name+": "+why] = true
+						continue
+					}
+					o.Fail(c.evPos(ev), "the error of "+ev.Call.Name+" (called in "+fnShort(ev.Fn)+") is not checked on a path that goes on to return", c.Dump(p, -1))
+					continue
+				}
 				last := p.Ret[len(p.Ret)-1]
 				if ix == -1 && last.String() == ev.Call.String() || ix >= 0 && last.String() == fmt.Sprintf("%s.%d", ev.Call.String(), ix) {
 					continue
